@@ -402,9 +402,26 @@ def gen_population(rng, shape):
         n, onion_share, buckets = rng.choice([20, 35, 60]), rng.choice([0.1, 0.5]), rng.choice([1, 2, 4])
     elif shape == 'onion':
         n, onion_share, buckets = rng.choice([40, 80, 130]), 0.85, 2
+    elif shape == 'cluster':
+        # one operator: many verified clearnet servers on distinct addresses of very few buckets (only two
+        # per bucket may be advertised) plus many onion services - what is NOT advertised must not count
+        # towards any allowance
+        n, onion_share, buckets = 0, 0.0, 1
     else:  # 'wide': many distinct buckets so that len(peers)//4 exceeds the floor
         n, onion_share, buckets = rng.choice([90, 140]), 0.4, 4
     specs = []
+    if shape == 'cluster':
+        nb = rng.choice([1, 1, 2, 3])
+        for i in range(rng.choice([50, 120, 240, 320])):
+            b = i % nb
+            ip = (f'{60 + b}.7.{i // 200}.{1 + i % 200}' if rng.random() < 0.8
+                  else f'2a01:{b + 1:x}:4f8:1{b:x}00:{i + 1:x}::1')
+            specs.append({'host': f'c{i}.cluster.example.net', 'ip': ip, 'lg': now - rng.choice([0, 5, 100]),
+                          'bad': False, 'in_peers': True, 'myself': False})
+        for i in range(rng.choice([8, 11, 30, 70])):
+            specs.append({'host': f'cluster{i}x{rng.randrange(10 ** 6)}.onion', 'ip': None,
+                          'lg': now - rng.choice([0, 5, 100]), 'bad': False, 'in_peers': True, 'myself': False})
+        rng.shuffle(specs)
     for i in range(n):
         host = gen_host(rng, i, onion_share)
         if shape == 'wide' and not host.endswith('.onion'):
@@ -1136,8 +1153,10 @@ def run(tier, seed):
     # 2. seeded generation
     rng = rng_for(seed, SUITE, 'sub')
     n_sub = 1500 if tier == 'quick' else 20000
-    shapes = ['small'] * 12 + ['medium'] * 4 + ['onion'] * 2 + ['wide'] * 1
+    shapes = ['small'] * 12 + ['medium'] * 4 + ['onion'] * 2 + ['wide'] * 1 + ['cluster'] * 1
     cases = [gen_population(rng, rng.choice(shapes)) for _ in range(n_sub)]
+    crng = rng_for(seed, SUITE, 'cluster')
+    cases += [dict(gen_population(crng, 'cluster'), is_tor=(i % 3 == 2)) for i in range(6)]
     runs = run_sub_cases(res, cases, 'random-sub')
     res.sample({'on_peers_subscribe': runs[0].line()[:600], 'returned': runs[0].returned})
     rng = rng_for(seed, SUITE, 'feat')
